@@ -42,6 +42,7 @@ def run(ctx, rep):
     R1.check_remap_frame_mapper(fx, rep, "C03.4")
     LR.check_frame_comparators(fx, rep, "C03.4")
     LR.check_section_slices(fx, rep, "C03.4")
+    CF.check_parse(fx, rep, "C03.4p")       # (the cache's answers start from the sections `parse` slices out of the file)
     # "of that class": the frame's class is found by the exact class lookup (mapper: hash map get; cache: binary search with the
     # string comparator) - a lookup that misses a class makes its frames come back unmapped
     LR.check_class_lookup(fx, rep, "C03.L")
